@@ -34,3 +34,923 @@ pub fn c04(eng: &mut Engine, rng: &mut Rng, thorough: bool, out: &mut Out) -> Ca
     }
     cases
 }
+
+// ---------------------------------------------------------------------------------------------
+// helpers
+
+fn req_from(j: &Value) -> Option<anoncreds::types::PresentationRequest> {
+    serde_json::from_value(j.clone()).ok()
+}
+
+/// a plan with one credential of definition A: single revealed, single unrevealed, group, predicate
+fn basic_plan(rng: &mut Rng, eng: &Engine, held: &str, with_pred: bool) -> Plan {
+    let h = eng.cast.cred(held);
+    let vals = &eng.cast.creds[h].values;
+    let mut refs = vec![
+        RefPlan { referent: "a_name".into(), kind: Kind::Single(vals[0].0.clone()), cred: Some(0), revealed: true, restrictions: None, non_revoked: None },
+    ];
+    if vals.len() >= 4 {
+        refs.push(RefPlan { referent: "g_sh".into(), kind: Kind::Group(vec![vals[2].0.clone(), vals[3].0.clone()]), cred: Some(0), revealed: true, restrictions: None, non_revoked: None });
+    } else {
+        refs.push(RefPlan { referent: "u_dept".into(), kind: Kind::Single(vals[2].0.clone()), cred: Some(0), revealed: false, restrictions: None, non_revoked: None });
+    }
+    if with_pred {
+        let v: i32 = vals[1].1.parse().unwrap_or(0);
+        refs.push(RefPlan { referent: "p_age".into(), kind: Kind::Pred(vals[1].0.clone(), "GE", v - 7), cred: Some(0), revealed: false, restrictions: None, non_revoked: None });
+    } else {
+        refs.push(RefPlan { referent: "u_age".into(), kind: Kind::Single(vals[1].0.clone()), cred: Some(0), revealed: false, restrictions: None, non_revoked: None });
+    }
+    Plan { creds: vec![CredUse { held: h, state_list: None, ts_only: None }], refs, global_nr: None, nonce: format!("{}", 1000 + rng.below(1_000_000_000)), holder: 0 }
+}
+
+/// two credentials (definitions A and B share a schema; C has other attributes)
+fn two_cred_plan(rng: &mut Rng, eng: &Engine, first: &str, second: &str) -> Plan {
+    let h1 = eng.cast.cred(first);
+    let h2 = eng.cast.cred(second);
+    let v1 = &eng.cast.creds[h1].values;
+    let v2 = &eng.cast.creds[h2].values;
+    // the predicate goes on the second credential's first numeric attribute
+    let (pname, pval) = v2.iter().find(|(_, v)| v.parse::<i32>().is_ok()).map(|(k, v)| (k.clone(), v.parse::<i32>().unwrap())).unwrap();
+    let refs = vec![
+        RefPlan { referent: "a1".into(), kind: Kind::Single(v1[0].0.clone()), cred: Some(0), revealed: true, restrictions: None, non_revoked: None },
+        RefPlan { referent: "u1".into(), kind: Kind::Single(v1[1].0.clone()), cred: Some(0), revealed: false, restrictions: None, non_revoked: None },
+        RefPlan { referent: "a2".into(), kind: Kind::Single(v2[0].0.clone()), cred: Some(1), revealed: true, restrictions: None, non_revoked: None },
+        RefPlan { referent: "p2".into(), kind: Kind::Pred(pname, "GE", pval - 3), cred: Some(1), revealed: false, restrictions: None, non_revoked: None },
+    ];
+    Plan { creds: vec![CredUse { held: h1, state_list: None, ts_only: None }, CredUse { held: h2, state_list: None, ts_only: None }], refs, global_nr: None, nonce: format!("{}", 1000 + rng.below(1_000_000_000)), holder: 0 }
+}
+
+fn plain_opts() -> VOpts {
+    VOpts::default()
+}
+
+// ---------------------------------------------------------------------------------------------
+// C01: the presentation proves exactly what the request asks
+
+pub fn c01(eng: &mut Engine, rng: &mut Rng, thorough: bool, out: &mut Out) -> Cases {
+    let mut cases = vec![];
+    let rounds = if thorough { 60 } else { 4 };
+    let o = plain_opts();
+    for round in 0..rounds {
+        for held in ["a_alice", "c_alice", "l_alice"] {
+            if round > 0 && held != "a_alice" && !thorough {
+                continue;
+            }
+            let plan = basic_plan(rng, eng, held, true);
+            let r0 = plan.request_json();
+            let h = eng.cast.cred(held);
+            let vals = eng.cast.creds[h].values.clone();
+            let age: i32 = vals[1].1.parse().unwrap_or(0);
+            // request variations, each verified against the presentation built for R0
+            let mut variants: Vec<(&str, Value, Option<bool>)> = vec![("same", r0.clone(), Some(true))];
+            let pkey = "p_age";
+            for (cls, f) in [
+                ("pred:value+1", Box::new(|r: &mut Value| r["requested_predicates"][pkey]["p_value"] = json!(age - 6)) as Box<dyn Fn(&mut Value)>),
+                ("pred:value-1", Box::new(|r: &mut Value| r["requested_predicates"][pkey]["p_value"] = json!(age - 8))),
+                ("pred:value-far", Box::new(|r: &mut Value| r["requested_predicates"][pkey]["p_value"] = json!(age + 40))),
+                ("pred:value-true-but-other", Box::new(|r: &mut Value| r["requested_predicates"][pkey]["p_value"] = json!(age))),
+                ("pred:op-gt", Box::new(|r: &mut Value| r["requested_predicates"][pkey]["p_type"] = json!(">"))),
+                ("pred:op-le", Box::new(|r: &mut Value| r["requested_predicates"][pkey]["p_type"] = json!("<="))),
+                ("pred:op-lt", Box::new(|r: &mut Value| r["requested_predicates"][pkey]["p_type"] = json!("<"))),
+                ("pred:attr-other", Box::new(|r: &mut Value| r["requested_predicates"][pkey]["name"] = json!(vals[vals.len() - 1].0.clone()))),
+                ("pred:attr-absent", Box::new(|r: &mut Value| r["requested_predicates"][pkey]["name"] = json!("salary"))),
+                ("pred:removed", Box::new(|r: &mut Value| { r["requested_predicates"].as_object_mut().unwrap().remove(pkey); })),
+                ("pred:added", Box::new(|r: &mut Value| r["requested_predicates"]["p_extra"] = json!({"name": vals[1].0.clone(), "p_type": ">=", "p_value": 1}))),
+                ("attr:name-other", Box::new(|r: &mut Value| r["requested_attributes"]["a_name"]["name"] = json!(vals[1].0.clone()))),
+                ("attr:name-absent", Box::new(|r: &mut Value| r["requested_attributes"]["a_name"]["name"] = json!("ssn"))),
+                ("attr:name-to-names", Box::new(|r: &mut Value| { let n = r["requested_attributes"]["a_name"]["name"].clone(); let o = r["requested_attributes"]["a_name"].as_object_mut().unwrap(); o.remove("name"); o.insert("names".into(), json!([n])); })),
+                ("attr:added", Box::new(|r: &mut Value| r["requested_attributes"]["a_extra"] = json!({"name": vals[0].0.clone()}))),
+                ("attr:removed", Box::new(|r: &mut Value| { r["requested_attributes"].as_object_mut().unwrap().remove("a_name"); })),
+            ] {
+                let mut r = r0.clone();
+                f(&mut r);
+                variants.push((cls, r, Some(false)));
+            }
+            // same normal form, other spelling: the same attribute — judged by the model only
+            let mut r = r0.clone();
+            r["requested_attributes"]["a_name"]["name"] = json!(format!(" {} ", vals[0].0.to_uppercase()));
+            variants.push(("attr:name-respelled", r, None));
+            let mut r = r0.clone();
+            r["requested_predicates"][pkey]["name"] = json!(vals[1].0.to_uppercase());
+            variants.push(("pred:name-respelled", r, None));
+
+            if let Ok(b) = eng.build_legacy(&plan) {
+                for (cls, rj, exp) in &variants {
+                    if let Some(req) = req_from(rj) {
+                        emit_legacy(eng, out, &mut cases, "c01.legacy", &format!("c01:req:{cls}"), "", *exp, &b.pres, &b.ghosts, &b.agg, &req, &o, "safety");
+                    }
+                }
+                // rewrites of the prover-controlled referent maps (legacy only)
+                let edits: Vec<(&str, Box<dyn Fn(&mut Value)>, Option<bool>)> = vec![
+                    ("map:revealed-to-unrevealed", Box::new(|p: &mut Value| { let e = p["requested_proof"]["revealed_attrs"].as_object_mut().unwrap().remove("a_name").unwrap(); p["requested_proof"]["unrevealed_attrs"]["a_name"] = json!({"sub_proof_index": e["sub_proof_index"]}); }), None),
+                    ("map:unrevealed-to-revealed-forged", Box::new(|p: &mut Value| { if let Some(k) = p["requested_proof"]["unrevealed_attrs"].as_object().and_then(|o| o.keys().next().cloned()) { let e = p["requested_proof"]["unrevealed_attrs"].as_object_mut().unwrap().remove(&k).unwrap(); p["requested_proof"]["revealed_attrs"][k] = json!({"sub_proof_index": e["sub_proof_index"], "raw": "99", "encoded": "99"}); } else { p["requested_proof"]["revealed_attrs"]["a_name"]["encoded"] = json!("1"); } }), Some(false)),
+                    ("map:pred-dropped", Box::new(|p: &mut Value| { p["requested_proof"]["predicates"].as_object_mut().unwrap().remove("p_age"); }), Some(false)),
+                    ("map:pred-as-unrevealed-attr", Box::new(|p: &mut Value| { let e = p["requested_proof"]["predicates"].as_object_mut().unwrap().remove("p_age").unwrap(); p["requested_proof"]["unrevealed_attrs"]["p_age"] = e; }), Some(false)),
+                    ("map:revealed-dropped", Box::new(|p: &mut Value| { p["requested_proof"]["revealed_attrs"].as_object_mut().unwrap().remove("a_name"); }), Some(false)),
+                    ("map:revealed-as-self-attested", Box::new(|p: &mut Value| { p["requested_proof"]["revealed_attrs"].as_object_mut().unwrap().remove("a_name"); p["requested_proof"]["self_attested_attrs"]["a_name"] = json!("Mallory"); }), None),
+                    ("map:index-out-of-range", Box::new(|p: &mut Value| { p["requested_proof"]["revealed_attrs"]["a_name"]["sub_proof_index"] = json!(7); }), Some(false)),
+                    ("map:dup-revealed-unrevealed", Box::new(|p: &mut Value| { p["requested_proof"]["unrevealed_attrs"]["a_name"] = json!({"sub_proof_index": 0}); }), Some(false)),
+                ];
+                let req0 = req_from(&r0).unwrap();
+                for (cls, f, exp) in edits {
+                    let mut p = b.pres.clone();
+                    f(&mut p);
+                    emit_legacy(eng, out, &mut cases, "c01.legacy", &format!("c01:{cls}"), "", exp, &p, &b.ghosts, &b.agg, &req0, &o, "safety");
+                }
+            }
+            if let Ok(b) = eng.build_w3c(&plan) {
+                for (cls, rj, exp) in &variants {
+                    if let Some(req) = req_from(rj) {
+                        // W3C has no referent map: an *added* referent asking for something the presentation already shows is legitimately satisfied
+                        // ... and an attribute asked under another name that the same credential holds (here: the predicate's attribute) is "shown to be held"
+                        let exp = if cls.ends_with(":added") || *cls == "attr:name-to-names" || *cls == "attr:removed" || *cls == "pred:removed" || *cls == "attr:name-other" { None } else { *exp };
+                        emit_w3c(eng, out, &mut cases, "c01.w3c", &format!("c01:req:{cls}"), "", exp, &b.pres, &b.ghosts, &b.agg, true, &req, &o, "safety");
+                    }
+                }
+            }
+        }
+        // two credentials: referents re-pointed at the other credential
+        for (first, second) in [("a_alice", "c_alice"), ("a_alice", "b_alice"), ("c_alice", "a2_alice")] {
+            if round > 1 && !thorough {
+                continue;
+            }
+            let plan = two_cred_plan(rng, eng, first, second);
+            let req0 = req_from(&plan.request_json()).unwrap();
+            if let Ok(b) = eng.build_legacy(&plan) {
+                let same_schema = first != "c_alice" && second != "c_alice";
+                let edits: Vec<(&str, Box<dyn Fn(&mut Value)>, Option<bool>)> = vec![
+                    ("honest2", Box::new(|_p: &mut Value| {}), Some(true)),
+                    ("map:revealed-reindexed", Box::new(|p: &mut Value| { p["requested_proof"]["revealed_attrs"]["a1"]["sub_proof_index"] = json!(1); }), Some(false)),
+                    // F2 class: unrevealed referent pointed at a credential that may lack the attribute
+                    ("map:unrevealed-reindexed", Box::new(|p: &mut Value| { p["requested_proof"]["unrevealed_attrs"]["u1"]["sub_proof_index"] = json!(1); }), if same_schema { None } else { Some(false) }),
+                    ("map:pred-reindexed", Box::new(|p: &mut Value| { p["requested_proof"]["predicates"]["p2"]["sub_proof_index"] = json!(0); }), Some(false)),
+                    ("map:identifiers-swapped", Box::new(|p: &mut Value| { p["identifiers"].as_array_mut().unwrap().swap(0, 1); }), Some(false)),
+                ];
+                for (cls, f, exp) in edits {
+                    let mut p = b.pres.clone();
+                    f(&mut p);
+                    emit_legacy(eng, out, &mut cases, "c01.legacy", &format!("c01:{cls}"), "", exp, &p, &b.ghosts, &b.agg, &req0, &o, "safety");
+                }
+            }
+        }
+    }
+    cases
+}
+
+// ---------------------------------------------------------------------------------------------
+// C02 / C08 (system level): revocation
+
+/// plan for one revocable credential; `placement`: where the non-revocation interval sits
+fn rev_plan(rng: &mut Rng, eng: &Engine, held: &str, state_list: Option<usize>, ts_only: Option<u64>, placement: &str, iv: Value) -> Plan {
+    let h = eng.cast.cred(held);
+    let mut refs = vec![
+        RefPlan { referent: "a_name".into(), kind: Kind::Single("name".into()), cred: Some(0), revealed: true, restrictions: None, non_revoked: None },
+        RefPlan { referent: "u_dept".into(), kind: Kind::Single("dept".into()), cred: Some(0), revealed: false, restrictions: None, non_revoked: None },
+        RefPlan { referent: "p_age".into(), kind: Kind::Pred("age".into(), "GE", 18), cred: Some(0), revealed: false, restrictions: None, non_revoked: None },
+    ];
+    let mut global_nr = None;
+    match placement {
+        "global" => global_nr = Some(iv),
+        "revealed" => refs[0].non_revoked = Some(iv),
+        "unrevealed" => refs[1].non_revoked = Some(iv),
+        "predicate" => refs[2].non_revoked = Some(iv),
+        "group" => {
+            refs[0] = RefPlan { referent: "g_nd".into(), kind: Kind::Group(vec!["name".into(), "dept".into()]), cred: Some(0), revealed: true, restrictions: None, non_revoked: Some(iv) };
+            refs.remove(1);
+        }
+        _ => {}
+    }
+    Plan { creds: vec![CredUse { held: h, state_list, ts_only }], refs, global_nr, nonce: format!("{}", 1000 + rng.below(1_000_000_000)), holder: 0 }
+}
+
+/// signature of "a revoked credential was accepted": format, whether the sub-proof carries a non-revocation part,
+/// and how the interval check was passed. Known findings (F3 F4 F5) are the `no-nrp` classes listed in known_findings.json;
+/// anything else (in particular any acceptance *with* a non-revocation part, or `plain`) is a new violation.
+fn c02_sig(fmt: &str, revoked: bool, ghosts: &[Value], strip_regid: bool, unrevealed_interval: bool, forged_ts: bool) -> String {
+    if !revoked {
+        return String::new();
+    }
+    let nrp = if ghosts.first().map(|g| !g["nrp"].is_null()).unwrap_or(false) { "nrp" } else { "no-nrp" };
+    let how = if strip_regid { "strip-regid" } else if unrevealed_interval { "unrevealed-interval" } else if forged_ts { "forged-timestamp" } else { "plain" };
+    format!("C02:{fmt}:revoked-accepted:{nrp}:{how}")
+}
+
+pub fn c02(eng: &mut Engine, rng: &mut Rng, thorough: bool, out: &mut Out) -> Cases {
+    let mut cases = vec![];
+    let rounds = if thorough { 12 } else { 1 };
+    let placements = ["global", "revealed", "unrevealed", "group", "predicate"];
+    for _ in 0..rounds {
+        for w3c in [false, true] {
+            let fmt = if w3c { "w3c" } else { "legacy" };
+            let fam = format!("c02.{fmt}");
+            for placement in placements {
+                // (credential, list of the holder's state, list(s) the verifier supplies, timestamp named, class, revoked at the named list?)
+                // registry history: list0 (ts 10) all valid; list1 (ts 20): 2 and 3 revoked; list2 (ts 30): 3 re-issued
+                let scen: Vec<(&str, Option<usize>, Option<u64>, Vec<usize>, &str, bool)> = vec![
+                    ("r1_alice", Some(1), None, vec![1], "valid:fresh-state", false),
+                    ("r1_alice", Some(0), None, vec![0, 1, 2], "valid:older-list-in-window", false),
+                    ("r3_alice", Some(2), None, vec![2], "reissued:fresh-state", false),
+                    ("r2_alice", Some(1), None, vec![1], "revoked:fresh-state", true),
+                    ("r3_alice", Some(1), None, vec![1], "revoked:fresh-state", true),
+                    ("r2_alice", Some(0), None, vec![0, 1], "revoked-later:state-of-earlier-list", false),
+                    ("r2_alice", None, Some(20), vec![1], "revoked:no-state-forged-timestamp", true),
+                    ("r2_alice", None, None, vec![1], "revoked:no-state-no-timestamp", true),
+                    ("r1_alice", None, Some(20), vec![1], "valid:no-state-forged-timestamp", false),
+                ];
+                for (held, state_list, ts_only, lists, cls0, revoked) in scen {
+                    let ts = state_list.map(RegHist::ts).or(ts_only).unwrap_or(20);
+                    let iv = match rng.below(3) {
+                        0 => json!({"from": 0, "to": ts}),
+                        1 => json!({"from": ts, "to": ts}),
+                        _ => json!({"to": ts + 5}),
+                    };
+                    let plan = rev_plan(rng, eng, held, state_list, ts_only, placement, iv);
+                    let ri = eng.cast.creds[eng.cast.cred(held)].rev.unwrap().0;
+                    let o = VOpts { lists: Some(lists.iter().map(|l| (ri, *l)).collect()), rev_reg_defs: true, ..Default::default() };
+                    let cls = format!("c02:{cls0}:{placement}");
+                    // known-finding signatures (DESIGN §7 F3 / F5): no non-revocation proof is demanded by the verifier
+                    let unrev = placement == "unrevealed";
+                    let forged = state_list.is_none() && ts_only.is_some();
+                    let expect = if revoked { Some(false) } else if cls0 == "valid:fresh-state" || cls0 == "reissued:fresh-state" { if placement == "unrevealed" && !w3c { None } else { Some(true) } } else { None };
+                    if w3c {
+                        if let Ok(b) = eng.build_w3c(&plan) {
+                            let sig = c02_sig(fmt, revoked, &b.ghosts, false, unrev, forged);
+                            emit_w3c(eng, out, &mut cases, &fam, &cls, &sig, expect, &b.pres, &b.ghosts, &b.agg, true, &b.req, &o, "safety");
+                            // post-hoc edits of the unauthenticated parts of the proof value
+                            for (ecls, strip_id, set_ts) in [("strip-regid", true, None), ("timestamp-of-valid-list", false, Some(10u64)), ("timestamp-unlisted", false, Some(15u64))] {
+                                let mut p = b.pres.clone();
+                                let mut pv = p.verifiable_credential[0].get_credential_presentation_proof().unwrap().clone();
+                                if strip_id {
+                                    pv.rev_reg_id = None;
+                                    pv.timestamp = None;
+                                }
+                                if let Some(t) = set_ts {
+                                    pv.timestamp = Some(t);
+                                }
+                                set_w3c_proof(&mut p.verifiable_credential[0], &pv, None, None);
+                                let o2 = VOpts { lists: Some(vec![(ri, 0), (ri, 1), (ri, 2)]), rev_reg_defs: true, ..Default::default() };
+                                let sig2 = c02_sig(fmt, revoked, &b.ghosts, strip_id, unrev, forged || set_ts.is_some());
+                                // a presentation naming the timestamp of a list at which the credential was still valid, with a state for that list, is legitimate
+                                let exp2 = if revoked && !(set_ts == Some(10) && state_list == Some(0)) { Some(false) } else { None };
+                                let exp2 = if set_ts == Some(10) && state_list.is_some() && state_list != Some(0) { exp2 } else { exp2 };
+                                emit_w3c(eng, out, &mut cases, &fam, &format!("{cls}:{ecls}"), &sig2, exp2, &p, &b.ghosts, &b.agg, true, &b.req, &o2, "safety");
+                            }
+                        }
+                    } else if let Ok(b) = eng.build_legacy(&plan) {
+                        let sig = c02_sig(fmt, revoked, &b.ghosts, false, unrev, forged);
+                        emit_legacy(eng, out, &mut cases, &fam, &cls, &sig, expect, &b.pres, &b.ghosts, &b.agg, &b.req, &o, "safety");
+                        for (ecls, strip_id, set_ts) in [("strip-regid", true, None), ("timestamp-of-valid-list", false, Some(10u64)), ("timestamp-unlisted", false, Some(15u64)), ("strip-timestamp", false, None)] {
+                            let mut p = b.pres.clone();
+                            if strip_id {
+                                p["identifiers"][0]["rev_reg_id"] = Value::Null;
+                                p["identifiers"][0]["timestamp"] = Value::Null;
+                            }
+                            match (set_ts, ecls) {
+                                (Some(t), _) => p["identifiers"][0]["timestamp"] = json!(t),
+                                (None, "strip-timestamp") => p["identifiers"][0]["timestamp"] = Value::Null,
+                                _ => {}
+                            }
+                            let o2 = VOpts { lists: Some(vec![(ri, 0), (ri, 1), (ri, 2)]), rev_reg_defs: true, ..Default::default() };
+                            let sig2 = c02_sig(fmt, revoked, &b.ghosts, strip_id, unrev, forged || set_ts.is_some());
+                            let exp2 = if revoked { Some(false) } else { None };
+                            emit_legacy(eng, out, &mut cases, &fam, &format!("{cls}:{ecls}"), &sig2, exp2, &p, &b.ghosts, &b.agg, &b.req, &o2, "safety");
+                        }
+                        // revealed <-> unrevealed rewrite of the referent that carries the interval
+                        if placement == "revealed" {
+                            let mut p = b.pres.clone();
+                            let e = p["requested_proof"]["revealed_attrs"].as_object_mut().unwrap().remove("a_name").unwrap();
+                            p["requested_proof"]["unrevealed_attrs"]["a_name"] = json!({"sub_proof_index": e["sub_proof_index"]});
+                            let sig2 = c02_sig(fmt, revoked, &b.ghosts, false, true, forged);
+                            emit_legacy(eng, out, &mut cases, &fam, &format!("{cls}:moved-to-unrevealed"), &sig2, if revoked { Some(false) } else { None }, &p, &b.ghosts, &b.agg, &b.req, &o, "safety");
+                        }
+                    }
+                }
+            }
+        }
+    }
+    cases
+}
+
+// ---------------------------------------------------------------------------------------------
+// C03: revealed values are the signed ones
+
+fn perturb_decimal(s: &str) -> String {
+    // change one decimal digit (keep length, keep it a number)
+    let mut cs: Vec<char> = s.chars().collect();
+    let pos = cs.len() / 2;
+    if let Some(c) = cs.get_mut(pos) {
+        if c.is_ascii_digit() {
+            *c = if *c == '9' { '8' } else { char::from(*c as u8 + 1) };
+        }
+    }
+    cs.into_iter().collect()
+}
+
+pub fn c03(eng: &mut Engine, rng: &mut Rng, thorough: bool, out: &mut Out) -> Cases {
+    use anoncreds::data_types::w3c::credential_attributes::CredentialAttributeValue as V;
+    let mut cases = vec![];
+    let rounds = if thorough { 40 } else { 2 };
+    let o = plain_opts();
+    for _ in 0..rounds {
+        for held in ["a_alice", "l_alice"] {
+            let plan = basic_plan(rng, eng, held, true);
+            if let Ok(b) = eng.build_legacy(&plan) {
+                let other_enc = b.pres["requested_proof"]["revealed_attr_groups"]["g_sh"]["values"]["sex"]["encoded"].clone();
+                let edits: Vec<(&str, Box<dyn Fn(&mut Value)>, Option<bool>)> = vec![
+                    ("enc-changed", Box::new(|p: &mut Value| p["requested_proof"]["revealed_attrs"]["a_name"]["encoded"] = json!("12345")), Some(false)),
+                    ("enc-perturbed", Box::new(|p: &mut Value| { let e = p["requested_proof"]["revealed_attrs"]["a_name"]["encoded"].as_str().unwrap().to_string(); p["requested_proof"]["revealed_attrs"]["a_name"]["encoded"] = json!(perturb_decimal(&e)); }), Some(false)),
+                    ("enc-of-other-attribute", Box::new(move |p: &mut Value| p["requested_proof"]["revealed_attrs"]["a_name"]["encoded"] = other_enc.clone()), Some(false)),
+                    ("raw-only", Box::new(|p: &mut Value| p["requested_proof"]["revealed_attrs"]["a_name"]["raw"] = json!("Mallory")), None),
+                    ("group-enc-zero-padded", Box::new(|p: &mut Value| p["requested_proof"]["revealed_attr_groups"]["g_sh"]["values"]["height"]["encoded"] = json!("000170")), None),
+                    ("group-enc-plus-sign", Box::new(|p: &mut Value| p["requested_proof"]["revealed_attr_groups"]["g_sh"]["values"]["height"]["encoded"] = json!("+170")), None),
+                    ("group-enc-changed", Box::new(|p: &mut Value| p["requested_proof"]["revealed_attr_groups"]["g_sh"]["values"]["height"]["encoded"] = json!("171")), Some(false)),
+                    ("group-enc-swapped", Box::new(|p: &mut Value| { let a = p["requested_proof"]["revealed_attr_groups"]["g_sh"]["values"]["height"]["encoded"].clone(); let b = p["requested_proof"]["revealed_attr_groups"]["g_sh"]["values"]["sex"]["encoded"].clone(); p["requested_proof"]["revealed_attr_groups"]["g_sh"]["values"]["height"]["encoded"] = b; p["requested_proof"]["revealed_attr_groups"]["g_sh"]["values"]["sex"]["encoded"] = a; }), Some(false)),
+                    ("group-member-added", Box::new(|p: &mut Value| p["requested_proof"]["revealed_attr_groups"]["g_sh"]["values"]["age"] = json!({"raw": "25", "encoded": "25"})), Some(false)),
+                    ("group-member-removed", Box::new(|p: &mut Value| { p["requested_proof"]["revealed_attr_groups"]["g_sh"]["values"].as_object_mut().unwrap().remove("sex"); }), Some(false)),
+                    ("group-member-renamed", Box::new(|p: &mut Value| { let v = p["requested_proof"]["revealed_attr_groups"]["g_sh"]["values"].as_object_mut().unwrap().remove("sex").unwrap(); p["requested_proof"]["revealed_attr_groups"]["g_sh"]["values"]["SEX"] = v; }), Some(false)),
+                ];
+                for (cls, f, exp) in edits {
+                    let mut p = b.pres.clone();
+                    f(&mut p);
+                    emit_legacy(eng, out, &mut cases, "c03.legacy", &format!("c03:{cls}"), "", exp, &p, &b.ghosts, &b.agg, &b.req, &o, "safety");
+                }
+                // the value inside the cryptographic sub-proof altered as well (consistent forgery): the proof is no longer intact
+                let mut p = b.pres.clone();
+                p["requested_proof"]["revealed_attr_groups"]["g_sh"]["values"]["height"]["encoded"] = json!("171");
+                p["proof"]["proofs"][0]["primary_proof"]["eq_proof"]["revealed_attrs"]["height"] = json!("171");
+                let mut g = b.ghosts.clone();
+                g[0]["intact"] = json!(false);
+                emit_legacy(eng, out, &mut cases, "c03.legacy", "c03:consistent-forgery", "", Some(false), &p, &g, &b.agg, &b.req, &o, "safety");
+            }
+            if let Ok(b) = eng.build_w3c(&plan) {
+                let cid_b = eng.cast.w.def("B").cid.clone();
+                let sid_c = eng.cast.w.def("C").sid.clone();
+                let edits: Vec<(&str, Box<dyn Fn(&mut anoncreds::data_types::w3c::presentation::W3CPresentation)>, Option<bool>)> = vec![
+                    ("subject-changed", Box::new(|p| { p.verifiable_credential[0].credential_subject.0.insert("name".into(), V::String("Mallory".into())); }), Some(false)),
+                    ("subject-added", Box::new(|p| { p.verifiable_credential[0].credential_subject.0.insert("age".into(), V::Number(99)); }), Some(false)),
+                    ("subject-added-unknown", Box::new(|p| { p.verifiable_credential[0].credential_subject.0.insert("title".into(), V::String("Dr".into())); }), Some(false)),
+                    ("subject-number-as-string", Box::new(|p| { p.verifiable_credential[0].credential_subject.0.insert("height".into(), V::String("170".into())); }), None),
+                    ("subject-number-zero-padded", Box::new(|p| { p.verifiable_credential[0].credential_subject.0.insert("height".into(), V::String("0170".into())); }), None),
+                    ("subject-number-changed", Box::new(|p| { p.verifiable_credential[0].credential_subject.0.insert("height".into(), V::Number(171)); }), Some(false)),
+                    ("subject-swapped", Box::new(|p| { let s = &mut p.verifiable_credential[0].credential_subject.0; let a = s["name"].clone(); let b = s["sex"].clone(); s.insert("name".into(), b); s.insert("sex".into(), a); }), Some(false)),
+                    ("subject-removed", Box::new(|p| { p.verifiable_credential[0].credential_subject.0.remove("sex"); }), None),
+                    ("subject-key-respelled", Box::new(|p| { let s = &mut p.verifiable_credential[0].credential_subject.0; let a = s.remove("name").unwrap(); s.insert("N a m e".into(), a); }), None),
+                    ("subject-marker-added", Box::new(|p| { p.verifiable_credential[0].credential_subject.0.insert("sex".into(), V::Bool(true)); }), Some(false)),
+                    ("subject-marker-false", Box::new(|p| { p.verifiable_credential[0].credential_subject.0.insert("age".into(), V::Bool(false)); }), None),
+                    ("issuer-changed", Box::new(|p| { p.verifiable_credential[0].issuer = anoncreds::data_types::issuer_id::IssuerId::new_unchecked("did:web:mallory"); }), Some(false)),
+                    ("method-changed", Box::new(move |p| { let pv = p.verifiable_credential[0].get_credential_presentation_proof().unwrap().clone(); set_w3c_proof(&mut p.verifiable_credential[0], &pv, Some("did:web:mallory/creddef".into()), None); }), Some(false)),
+                    ("proof-creddef-changed", Box::new(move |p| { let mut pv = p.verifiable_credential[0].get_credential_presentation_proof().unwrap().clone(); pv.cred_def_id = cid_b.clone(); set_w3c_proof(&mut p.verifiable_credential[0], &pv, None, None); }), Some(false)),
+                    ("proof-schema-changed", Box::new(move |p| { let mut pv = p.verifiable_credential[0].get_credential_presentation_proof().unwrap().clone(); pv.schema_id = sid_c.clone(); set_w3c_proof(&mut p.verifiable_credential[0], &pv, None, None); }), Some(false)),
+                    ("purpose-changed", Box::new(|p| { let pv = p.verifiable_credential[0].get_credential_presentation_proof().unwrap().clone(); set_w3c_proof(&mut p.verifiable_credential[0], &pv, None, Some(anoncreds::data_types::w3c::proof::ProofPurpose::Authentication)); }), Some(false)),
+                ];
+                for (cls, f, exp) in edits {
+                    let mut p = b.pres.clone();
+                    f(&mut p);
+                    // legacy-id credentials name their attributes alike; the edits above use gvt attribute names
+                    emit_w3c(eng, out, &mut cases, "c03.w3c", &format!("c03:{cls}"), "", exp, &p, &b.ghosts, &b.agg, true, &b.req, &o, "safety");
+                }
+            }
+        }
+        // two credentials: values attributed to the other credential
+        let plan = two_cred_plan(rng, eng, "a_alice", "b_alice");
+        if let Ok(b) = eng.build_w3c(&plan) {
+            let mut p = b.pres.clone();
+            let s0 = p.verifiable_credential[0].credential_subject.clone();
+            let s1 = p.verifiable_credential[1].credential_subject.clone();
+            p.verifiable_credential[0].credential_subject = s1;
+            p.verifiable_credential[1].credential_subject = s0;
+            emit_w3c(eng, out, &mut cases, "c03.w3c", "c03:subjects-swapped-between-credentials", "", Some(false), &p, &b.ghosts, &b.agg, true, &b.req, &o, "safety");
+            let mut p = b.pres.clone();
+            p.verifiable_credential.swap(0, 1);
+            let mut g = b.ghosts.clone();
+            g.swap(0, 1);
+            emit_w3c(eng, out, &mut cases, "c03.w3c", "c03:credentials-reordered", "", Some(false), &p, &g, &b.agg, true, &b.req, &o, "safety");
+        }
+    }
+    cases
+}
+
+// ---------------------------------------------------------------------------------------------
+// C05: nonce, link secret, definitions, integrity of the proof
+
+fn numeric_paths(v: &Value, prefix: Vec<String>, out: &mut Vec<Vec<String>>) {
+    match v {
+        Value::String(s) if s.len() > 6 && s.chars().all(|c| c.is_ascii_digit()) => out.push(prefix),
+        Value::Object(m) => {
+            for (k, x) in m {
+                let mut p = prefix.clone();
+                p.push(k.clone());
+                numeric_paths(x, p, out);
+            }
+        }
+        Value::Array(a) => {
+            for (i, x) in a.iter().enumerate() {
+                let mut p = prefix.clone();
+                p.push(i.to_string());
+                numeric_paths(x, p, out);
+            }
+        }
+        _ => {}
+    }
+}
+fn at_mut<'a>(v: &'a mut Value, path: &[String]) -> &'a mut Value {
+    let mut cur = v;
+    for k in path {
+        cur = if cur.is_array() { &mut cur[k.parse::<usize>().unwrap()] } else { &mut cur[k.as_str()] };
+    }
+    cur
+}
+
+pub fn c05(eng: &mut Engine, rng: &mut Rng, thorough: bool, out: &mut Out) -> Cases {
+    let mut cases = vec![];
+    let rounds = if thorough { 25 } else { 2 };
+    let o = plain_opts();
+    for round in 0..rounds {
+        let plan = two_cred_plan(rng, eng, "a_alice", "c_alice");
+        let r0 = plan.request_json();
+        let b = match eng.build_legacy(&plan) {
+            Ok(b) => b,
+            Err(_) => continue,
+        };
+        emit_legacy(eng, out, &mut cases, "c05.legacy", "c05:honest", "", Some(true), &b.pres, &b.ghosts, &b.agg, &b.req, &o, "safety");
+        // another nonce in the request
+        for (cls, nonce) in [("nonce+1", format!("{}", plan.nonce.parse::<u64>().unwrap() + 1)), ("nonce-other", "424242".to_string()), ("nonce-leading-zero-same-value", format!("0{}", plan.nonce))] {
+            let mut r = r0.clone();
+            r["nonce"] = json!(nonce);
+            if let Some(req) = req_from(&r) {
+                let exp = if cls.starts_with("nonce-leading") { None } else { Some(false) };
+                emit_legacy(eng, out, &mut cases, "c05.legacy", &format!("c05:{cls}"), "", exp, &b.pres, &b.ghosts, &b.agg, &req, &o, "safety");
+            }
+        }
+        // another credential definition under the same id
+        let (ia, ib, ic) = (eng.cast.def_idx("A"), eng.cast.def_idx("B"), eng.cast.def_idx("C"));
+        for (cls, sw) in [("def-swapped-same-schema", (ia, ib)), ("def-swapped-other-schema", (ic, ia))] {
+            let o2 = VOpts { swap_def: Some(sw), ..Default::default() };
+            emit_legacy(eng, out, &mut cases, "c05.legacy", &format!("c05:{cls}"), "", Some(false), &b.pres, &b.ghosts, &b.agg, &b.req, &o2, "safety");
+        }
+        // sub-proofs reordered (with and without the unauthenticated bookkeeping following)
+        {
+            let mut p = b.pres.clone();
+            p["proof"]["proofs"].as_array_mut().unwrap().swap(0, 1);
+            let mut g = b.ghosts.clone();
+            g.swap(0, 1);
+            emit_legacy(eng, out, &mut cases, "c05.legacy", "c05:subproofs-swapped", "", Some(false), &p, &g, &b.agg, &b.req, &o, "safety");
+            p["identifiers"].as_array_mut().unwrap().swap(0, 1);
+            for m in ["revealed_attrs", "unrevealed_attrs", "predicates"] {
+                if let Some(o) = p["requested_proof"][m].as_object_mut() {
+                    for (_, e) in o.iter_mut() {
+                        let i = e["sub_proof_index"].as_u64().unwrap();
+                        e["sub_proof_index"] = json!(1 - i);
+                    }
+                }
+            }
+            emit_legacy(eng, out, &mut cases, "c05.legacy", "c05:subproofs-swapped-consistently", "", Some(false), &p, &g, &b.agg, &b.req, &o, "safety");
+        }
+        // a sub-proof spliced in from another presentation of the same credential for the same request
+        if let Ok(b2) = eng.build_legacy(&plan) {
+            let mut p = b.pres.clone();
+            p["proof"]["proofs"][1] = b2.pres["proof"]["proofs"][1].clone();
+            let mut g = b.ghosts.clone();
+            g[1] = b2.ghosts[1].clone();
+            emit_legacy(eng, out, &mut cases, "c05.legacy", "c05:subproof-spliced", "", Some(false), &p, &g, &b.agg, &b.req, &o, "safety");
+            let mut p = b.pres.clone();
+            p["proof"]["aggregated_proof"] = b2.pres["proof"]["aggregated_proof"].clone();
+            emit_legacy(eng, out, &mut cases, "c05.legacy", "c05:aggregate-spliced", "", Some(false), &p, &b.ghosts, &b2.agg, &b.req, &o, "safety");
+        }
+        // one decimal digit changed in a numeric field of a sub-proof / of the aggregated proof
+        let mut paths = vec![];
+        numeric_paths(&b.pres["proof"], vec!["proof".to_string()], &mut paths);
+        let n_pert = if thorough { paths.len() } else { 10.min(paths.len()) };
+        rng.shuffle(&mut paths);
+        for path in paths.iter().take(n_pert) {
+            let mut p = b.pres.clone();
+            let cur = at_mut(&mut p, path);
+            let old = cur.as_str().unwrap().to_string();
+            *cur = json!(perturb_decimal(&old));
+            let mut g = b.ghosts.clone();
+            let mut agg = b.agg.clone();
+            if path.get(1).map(|s| s == "proofs").unwrap_or(false) {
+                let i: usize = path[2].parse().unwrap();
+                g[i]["intact"] = json!(false);
+            } else {
+                agg["intact"] = json!(false);
+            }
+            let field = path.iter().filter(|s| s.parse::<usize>().is_err()).cloned().collect::<Vec<_>>().join(".");
+            // a changed *revealed value* inside the sub-proof also changes what the sub-proof visibly reveals
+            emit_legacy(eng, out, &mut cases, "c05.legacy", &format!("c05:perturbed:{field}"), "", Some(false), &p, &g, &agg, &b.req, &o, "safety");
+        }
+        {
+            // a byte of the aggregated proof's c_list
+            let mut p = b.pres.clone();
+            if let Some(x) = p["proof"]["aggregated_proof"]["c_list"][0][3].as_u64() {
+                p["proof"]["aggregated_proof"]["c_list"][0][3] = json!((x + 1) % 256);
+                let mut agg = b.agg.clone();
+                agg["intact"] = json!(false);
+                emit_legacy(eng, out, &mut cases, "c05.legacy", "c05:perturbed:c_list", "", Some(false), &p, &b.ghosts, &agg, &b.req, &o, "safety");
+            }
+        }
+        // another link secret for all credentials: the honest prover API with the wrong secret
+        {
+            let mut plan2 = plan.clone();
+            plan2.holder = 1;
+            if let Ok(mut b3) = eng.build_legacy(&plan2) {
+                for g in b3.ghosts.iter_mut() {
+                    g["intact"] = json!(false); // not a proof of knowledge of a signature over this secret
+                }
+                emit_legacy(eng, out, &mut cases, "c05.legacy", "c05:wrong-link-secret-all", "", Some(false), &b3.pres, &b3.ghosts, &b3.agg, &b3.req, &o, "safety");
+            } else {
+                out.count("c05:wrong-link-secret-all:prover-refused");
+            }
+        }
+        // credentials of two holders combined by an adversarial prover built on the CL builder
+        if round < 3 || thorough {
+            for common in [false, true] {
+                if let Some((pj, ghosts, agg, req)) = crate::adv::mix_two_holders(eng, rng, common) {
+                    emit_legacy(eng, out, &mut cases, "c05.legacy", &format!("c05:two-holders:{}", if common { "common-attr" } else { "no-common-attr" }), "", Some(false), &pj, &ghosts, &agg, &req, &o, "safety");
+                }
+            }
+        }
+        // W3C
+        if let Ok(bw) = eng.build_w3c(&plan) {
+            emit_w3c(eng, out, &mut cases, "c05.w3c", "c05:honest", "", Some(true), &bw.pres, &bw.ghosts, &bw.agg, true, &bw.req, &o, "safety");
+            let mut r = r0.clone();
+            r["nonce"] = json!("424242");
+            emit_w3c(eng, out, &mut cases, "c05.w3c", "c05:nonce-other", "", Some(false), &bw.pres, &bw.ghosts, &bw.agg, true, &req_from(&r).unwrap(), &o, "safety");
+            let o2 = VOpts { swap_def: Some((ia, ib)), ..Default::default() };
+            emit_w3c(eng, out, &mut cases, "c05.w3c", "c05:def-swapped-same-schema", "", Some(false), &bw.pres, &bw.ghosts, &bw.agg, true, &bw.req, &o2, "safety");
+            // perturb a number inside the first credential's sub-proof
+            let pv = bw.pres.verifiable_credential[0].get_credential_presentation_proof().unwrap().clone();
+            let sj = serde_json::to_value(&pv.sub_proof).unwrap();
+            let mut paths = vec![];
+            numeric_paths(&sj, vec![], &mut paths);
+            rng.shuffle(&mut paths);
+            for path in paths.iter().take(if thorough { 12 } else { 3 }) {
+                let mut sj2 = sj.clone();
+                let cur = at_mut(&mut sj2, path);
+                let old = cur.as_str().unwrap().to_string();
+                *cur = json!(perturb_decimal(&old));
+                if let Ok(sp) = serde_json::from_value(sj2) {
+                    let mut pv2 = pv.clone();
+                    pv2.sub_proof = sp;
+                    let mut p = bw.pres.clone();
+                    set_w3c_proof(&mut p.verifiable_credential[0], &pv2, None, None);
+                    let mut g = bw.ghosts.clone();
+                    g[0]["intact"] = json!(false);
+                    let field = path.iter().filter(|s| s.parse::<usize>().is_err()).cloned().collect::<Vec<_>>().join(".");
+                    emit_w3c(eng, out, &mut cases, "c05.w3c", &format!("c05:perturbed:{field}"), "", Some(false), &p, &g, &bw.agg, true, &bw.req, &o, "safety");
+                }
+            }
+        }
+    }
+    cases
+}
+
+// ---------------------------------------------------------------------------------------------
+// C06: restrictions (system level): one fixed valid presentation per round, only the request's restrictions vary
+
+pub fn c06(eng: &mut Engine, rng: &mut Rng, thorough: bool, out: &mut Out) -> Cases {
+    let mut cases = vec![];
+    let rounds = if thorough { 20 } else { 2 };
+    let o = plain_opts();
+    for round in 0..rounds {
+        let single = round % 2 == 0;
+        let which = *rng.pick(&["a_alice", "l_alice", "c_alice"]);
+        let plan = if single { basic_plan(rng, eng, which, true) } else { two_cred_plan(rng, eng, "a_alice", "b_alice") };
+        let r0 = plan.request_json();
+        let bl = eng.build_legacy(&plan).ok();
+        let bw = eng.build_w3c(&plan).ok();
+        let n_var = if thorough { 60 } else { 24 };
+        for _ in 0..n_var {
+            // choose a referent and a restriction that is true / false of the credential serving it
+            let rp = rng.pick(&plan.refs).clone();
+            let held = plan.creds[rp.cred.unwrap()].held;
+            let truth = rng.chance(1, 2);
+            let revealed_pairs: Vec<(String, String)> = match (&rp.kind, rp.revealed) {
+                (Kind::Single(n), true) => vec![(n.clone(), eng.cast.creds[held].values.iter().find(|(k, _)| norm(k) == norm(n)).map(|(_, v)| v.clone()).unwrap_or_default())],
+                _ => vec![],
+            };
+            let q = if truth { true_restrictions(rng, &eng.cast, held, &revealed_pairs) } else { false_restrictions(rng, &eng.cast, held) };
+            let mut r = r0.clone();
+            let is_pred = matches!(rp.kind, Kind::Pred(..));
+            let section = if is_pred { "requested_predicates" } else { "requested_attributes" };
+            r[section][rp.referent.as_str()]["restrictions"] = q.clone();
+            let Some(req) = req_from(&r) else { continue };
+            let kind = match rp.kind { Kind::Single(_) => if rp.revealed { "single" } else { "unrevealed" }, Kind::Group(_) => "group", Kind::Pred(..) => "pred", Kind::SelfAttested(_) => "self" };
+            let cls = format!("c06:{}:{}:{}", if single { "1cred" } else { "2cred" }, kind, if truth { "true" } else { "false" });
+            // in a two-credential W3C presentation of one schema another credential may legitimately serve the referent
+            if let Some(b) = &bl {
+                emit_legacy(eng, out, &mut cases, "c06.legacy", &cls, "", Some(truth), &b.pres, &b.ghosts, &b.agg, &req, &o, "safety");
+            }
+            if let Some(b) = &bw {
+                let exp = if truth { Some(true) } else if single { Some(false) } else { None };
+                emit_w3c(eng, out, &mut cases, "c06.w3c", &cls, "", exp, &b.pres, &b.ghosts, &b.agg, true, &req, &o, "safety");
+            }
+        }
+        // restriction true of credential 1 placed on the referent served by credential 2 (legacy: the mapped credential decides)
+        if !single {
+            if let Some(b) = &bl {
+                let d1 = &eng.cast.w.defs[eng.cast.creds[plan.creds[0].held].def];
+                let mut r = r0.clone();
+                r["requested_attributes"]["a2"]["restrictions"] = json!({"cred_def_id": d1.cid.0});
+                let req = req_from(&r).unwrap();
+                emit_legacy(eng, out, &mut cases, "c06.legacy", "c06:2cred:restriction-of-other-credential", "", Some(false), &b.pres, &b.ghosts, &b.agg, &req, &o, "safety");
+                // F10 class: additionally list the referent as unrevealed for the credential that meets the restriction
+                let mut p = b.pres.clone();
+                p["requested_proof"]["unrevealed_attrs"]["a2"] = json!({"sub_proof_index": 0});
+                emit_legacy(eng, out, &mut cases, "c06.legacy", "c06:2cred:duplicate-referent", "", Some(false), &p, &b.ghosts, &b.agg, &req, &o, "safety");
+            }
+        }
+        // a restricted referent cannot be met by self-attestation
+        if let Some(b) = &bl {
+            let mut r = r0.clone();
+            let first_attr = plan.refs.iter().find(|x| matches!(x.kind, Kind::Single(_)) && x.revealed).unwrap().referent.clone();
+            r["requested_attributes"][first_attr.as_str()]["restrictions"] = json!({"cred_def_id": "whatever"});
+            let req = req_from(&r).unwrap();
+            let mut p = b.pres.clone();
+            p["requested_proof"]["revealed_attrs"].as_object_mut().unwrap().remove(&first_attr);
+            p["requested_proof"]["self_attested_attrs"][first_attr.as_str()] = json!("I say so");
+            emit_legacy(eng, out, &mut cases, "c06.legacy", "c06:restricted-self-attested", "", Some(false), &p, &b.ghosts, &b.agg, &req, &o, "safety");
+            // F15 (known finding): the restriction on a revealed value is evaluated on the unauthenticated raw string
+            let mut r = r0.clone();
+            let n = match &plan.refs.iter().find(|x| x.referent == first_attr).unwrap().kind { Kind::Single(n) => n.clone(), _ => String::new() };
+            r["requested_attributes"][first_attr.as_str()]["restrictions"] = json!({ format!("attr::{n}::value"): "Somebody Else" });
+            let req = req_from(&r).unwrap();
+            let mut p = b.pres.clone();
+            p["requested_proof"]["revealed_attrs"][first_attr.as_str()]["raw"] = json!("Somebody Else");
+            emit_legacy(eng, out, &mut cases, "c06.legacy", "c06:value-restriction-met-by-forged-raw", "C06:legacy:value-restriction-on-unauthenticated-raw", Some(false), &p, &b.ghosts, &b.agg, &req, &o, "safety");
+        }
+    }
+    cases
+}
+
+// ---------------------------------------------------------------------------------------------
+// C12: structure-aware mutations of valid presentations; never panic, never loop
+
+fn rand_key(rng: &mut Rng, m: &Value) -> Option<String> {
+    let o = m.as_object()?;
+    if o.is_empty() {
+        return None;
+    }
+    let ks: Vec<&String> = o.keys().collect();
+    Some((*rng.pick(&ks)).clone())
+}
+
+const MAPS: &[&str] = &["revealed_attrs", "revealed_attr_groups", "unrevealed_attrs", "predicates", "self_attested_attrs"];
+
+fn shape_for(map: &str, idx: u64) -> Value {
+    match map {
+        "revealed_attrs" => json!({"sub_proof_index": idx, "raw": "x", "encoded": "1"}),
+        "revealed_attr_groups" => json!({"sub_proof_index": idx, "values": {"name": {"raw": "x", "encoded": "1"}}}),
+        "self_attested_attrs" => json!("self"),
+        _ => json!({"sub_proof_index": idx}),
+    }
+}
+
+/// one random structural mutation of a legacy presentation (and of the ghost vector when sub-proofs move)
+fn mutate_legacy(rng: &mut Rng, p: &mut Value, ghosts: &mut Vec<Value>, referents: &[String]) -> &'static str {
+    let n = p["identifiers"].as_array().map(|a| a.len()).unwrap_or(0) as u64;
+    match rng.below(13) {
+        0 => {
+            let m = *rng.pick(MAPS);
+            if let Some(k) = rand_key(rng, &p["requested_proof"][m]) {
+                p["requested_proof"][m].as_object_mut().unwrap().remove(&k);
+            }
+            "delete-referent"
+        }
+        1 => {
+            let m = *rng.pick(MAPS);
+            if let Some(k) = rand_key(rng, &p["requested_proof"][m]) {
+                let e = p["requested_proof"][m][k.as_str()].clone();
+                let target = if rng.chance(1, 2) && !referents.is_empty() { rng.pick(referents).clone() } else { "ghost_ref".to_string() };
+                p["requested_proof"][m][target.as_str()] = e;
+            }
+            "duplicate-referent"
+        }
+        2 => {
+            let m = *rng.pick(&["revealed_attrs", "revealed_attr_groups", "unrevealed_attrs", "predicates"]);
+            if let Some(k) = rand_key(rng, &p["requested_proof"][m]) {
+                p["requested_proof"][m][k.as_str()]["sub_proof_index"] = json!(rng.below(n + 2));
+            }
+            "re-index"
+        }
+        3 | 4 => {
+            let from = *rng.pick(MAPS);
+            let to = *rng.pick(MAPS);
+            if let Some(k) = rand_key(rng, &p["requested_proof"][from]) {
+                let e = p["requested_proof"][from].as_object_mut().unwrap().remove(&k).unwrap();
+                let idx = e.get("sub_proof_index").and_then(|x| x.as_u64()).unwrap_or(0);
+                let keep = rng.chance(1, 2);
+                p["requested_proof"][to][k.as_str()] = shape_for(to, idx);
+                if keep {
+                    p["requested_proof"][from][k.as_str()] = e;
+                }
+            }
+            "cross-wire"
+        }
+        5 => {
+            if let Some(first) = p["identifiers"].get(0).cloned() {
+                p["identifiers"].as_array_mut().unwrap().push(first);
+            }
+            "lengthen-identifiers"
+        }
+        6 => {
+            p["identifiers"].as_array_mut().map(|a| a.pop());
+            "shorten-identifiers"
+        }
+        7 => {
+            if let Some(first) = p["proof"]["proofs"].get(0).cloned() {
+                p["proof"]["proofs"].as_array_mut().unwrap().push(first);
+                let g = ghosts[0].clone();
+                ghosts.push(g);
+            }
+            "lengthen-proofs"
+        }
+        8 => {
+            if p["proof"]["proofs"].as_array().map(|a| !a.is_empty()).unwrap_or(false) {
+                p["proof"]["proofs"].as_array_mut().unwrap().pop();
+                ghosts.pop();
+            }
+            "shorten-proofs"
+        }
+        9 => {
+            if n >= 1 {
+                let i = rng.below(n) as usize;
+                let f = *rng.pick(&["schema_id", "cred_def_id"]);
+                p["identifiers"][i][f] = json!(*rng.pick(&["did:web:unknown/x", "did:web:alpha/schema/gvt", "did:web:beta/creddef/gvt", "did:web:gamma/creddef/degree", "did:web:gamma/schema/degree"]));
+            }
+            "edit-identifier"
+        }
+        10 => {
+            if let Some(k) = rand_key(rng, &p["requested_proof"]["revealed_attr_groups"]) {
+                let vals = &mut p["requested_proof"]["revealed_attr_groups"][k.as_str()]["values"];
+                match rng.below(3) {
+                    0 => {
+                        vals["extra"] = json!({"raw": "x", "encoded": "1"});
+                    }
+                    1 => {
+                        if let Some(kk) = rand_key(rng, vals) {
+                            vals.as_object_mut().unwrap().remove(&kk);
+                        }
+                    }
+                    _ => {
+                        *vals = json!({});
+                    }
+                }
+            }
+            "edit-group-values"
+        }
+        11 => {
+            if n >= 1 {
+                let i = rng.below(n) as usize;
+                match rng.below(3) {
+                    0 => p["identifiers"][i]["timestamp"] = json!(rng.below(40)),
+                    1 => p["identifiers"][i]["rev_reg_id"] = json!("did:web:rho/revreg/emp/1"),
+                    _ => p["identifiers"][i]["rev_reg_id"] = json!("did:web:nowhere"),
+                }
+            }
+            "edit-revocation-fields"
+        }
+        _ => {
+            // a sub-proof with foreign visible content: take another credential's position
+            let a = p["proof"]["proofs"].as_array().map(|a| a.len()).unwrap_or(0);
+            if a >= 2 {
+                p["proof"]["proofs"].as_array_mut().unwrap().swap(0, a - 1);
+                ghosts.swap(0, a - 1);
+            }
+            "swap-proofs"
+        }
+    }
+}
+
+/// request-side mutations that steer the verifier into its less travelled branches
+fn mutate_request(rng: &mut Rng, r: &mut Value, eng: &Engine) {
+    let d = &eng.cast.w.defs[0];
+    match rng.below(8) {
+        0 => {
+            if let Some(k) = rand_key(rng, &r["requested_attributes"]) {
+                r["requested_attributes"][k.as_str()]["restrictions"] = json!({"cred_def_id": d.cid.0});
+            }
+        }
+        1 => {
+            if let Some(k) = rand_key(rng, &r["requested_predicates"]) {
+                r["requested_predicates"][k.as_str()]["restrictions"] = json!({"$or": [{"cred_def_id": d.cid.0}, {"attr::name::value": "x"}]});
+            }
+        }
+        2 => {
+            if let Some(k) = rand_key(rng, &r["requested_attributes"]) {
+                let o = r["requested_attributes"][k.as_str()].as_object_mut().unwrap();
+                o.remove("name");
+                o.remove("names");
+            }
+        }
+        3 => {
+            if let Some(k) = rand_key(rng, &r["requested_attributes"]) {
+                r["requested_attributes"][k.as_str()]["names"] = json!(["name", "age"]);
+            }
+        }
+        4 => {
+            r["non_revoked"] = json!({"from": rng.below(30), "to": 10 + rng.below(30)});
+        }
+        5 => {
+            if let Some(k) = rand_key(rng, &r["requested_attributes"]) {
+                r["requested_attributes"][k.as_str()]["non_revoked"] = json!({"from": rng.below(30)});
+            }
+        }
+        6 => {
+            r["requested_attributes"]["added"] = json!({"name": "name", "restrictions": {}});
+        }
+        _ => {}
+    }
+}
+
+pub fn c12(eng: &mut Engine, rng: &mut Rng, thorough: bool, out: &mut Out) -> Cases {
+    let mut cases = vec![];
+    let bases = if thorough { 60 } else { 8 };
+    let per_base = if thorough { 120 } else { 40 };
+    for bi in 0..bases {
+        let with_rev = bi % 4 == 3;
+        let plan = gen_honest_plan(rng, &eng.cast, false, with_rev);
+        let r0 = plan.request_json();
+        let o = honest_vopts(&eng.cast, &plan);
+        let referents: Vec<String> = plan.refs.iter().map(|r| r.referent.clone()).collect();
+        let Ok(b) = eng.build_legacy(&plan) else { continue };
+        for _ in 0..per_base {
+            let mut p = b.pres.clone();
+            let mut g = b.ghosts.clone();
+            let k = 1 + rng.below(3);
+            let mut names = vec![];
+            for _ in 0..k {
+                names.push(mutate_legacy(rng, &mut p, &mut g, &referents));
+            }
+            let mut r = r0.clone();
+            if rng.chance(1, 2) {
+                mutate_request(rng, &mut r, eng);
+            }
+            let Some(req) = req_from(&r) else { continue };
+            let o2 = if rng.chance(1, 6) { VOpts { lists: Some(vec![(0, 0), (0, 1)]), rev_reg_defs: true, ..Default::default() } } else { o.clone() };
+            names.sort();
+            names.dedup();
+            emit_legacy(eng, out, &mut cases, "c12.legacy", &format!("c12:{}", names.join("+")), "", None, &p, &g, &b.agg, &req, &o2, "safety");
+        }
+        // W3C: drop / duplicate / reorder credentials, wrong purposes, foreign proof values
+        let planw = gen_honest_plan(rng, &eng.cast, true, with_rev);
+        let ow = honest_vopts(&eng.cast, &planw);
+        let Ok(bw) = eng.build_w3c(&planw) else { continue };
+        for _ in 0..(per_base / 3) {
+            let mut p = bw.pres.clone();
+            let mut g = bw.ghosts.clone();
+            let n = p.verifiable_credential.len();
+            let cls = match rng.below(7) {
+                0 => {
+                    p.verifiable_credential.pop();
+                    g.pop();
+                    "drop-credential"
+                }
+                1 => {
+                    let c = p.verifiable_credential[0].clone();
+                    p.verifiable_credential.push(c);
+                    let gg = g[0].clone();
+                    g.push(gg);
+                    "duplicate-credential"
+                }
+                2 if n >= 2 => {
+                    let a = p.verifiable_credential[0].proof.clone();
+                    let bb = p.verifiable_credential[n - 1].proof.clone();
+                    p.verifiable_credential[0].proof = bb;
+                    p.verifiable_credential[n - 1].proof = a;
+                    g.swap(0, n - 1);
+                    "swap-proof-values"
+                }
+                3 => {
+                    let pv = p.verifiable_credential[0].get_credential_presentation_proof().unwrap().clone();
+                    set_w3c_proof(&mut p.verifiable_credential[0], &pv, None, Some(anoncreds::data_types::w3c::proof::ProofPurpose::Authentication));
+                    "wrong-purpose"
+                }
+                4 => {
+                    // the credential's own signature proof instead of a presentation proof
+                    let held = planw.creds.iter().find(|c| planw.refs.iter().any(|r| r.cred.map(|i| planw.creds[i].held) == Some(c.held))).map(|c| c.held).unwrap_or(0);
+                    p.verifiable_credential[0].proof = eng.cast.creds[held].w3c.proof.clone();
+                    "signature-proof-instead"
+                }
+                5 => {
+                    p.verifiable_credential[0].credential_subject.0.clear();
+                    "empty-subject"
+                }
+                _ => {
+                    p.verifiable_credential.clear();
+                    g.clear();
+                    "no-credentials"
+                }
+            };
+            let mut r = planw.request_json();
+            if rng.chance(1, 2) {
+                mutate_request(rng, &mut r, eng);
+            }
+            let Some(req) = req_from(&r) else { continue };
+            emit_w3c(eng, out, &mut cases, "c12.w3c", &format!("c12:{cls}"), "", None, &p, &g, &bw.agg, true, &req, &ow, "safety");
+        }
+    }
+    // byte-level: mutated and random bytes into every from-JSON entry point (test, not theorem: DESIGN §6 C12)
+    crate::fuzz::parse_fuzz(eng, rng, if thorough { 400_000 } else { 20_000 }, out);
+    cases
+}
